@@ -156,6 +156,23 @@ func (r *RowResolver) tryResolve(m *Merge) (err error) {
 	return
 }
 
+// sameCellsAsBase returns true if the row in given layer only differs from base
+// row in column order (row sum changes whenever columns are rearranged)
+func (r *RowResolver) sameCellsAsBase(m *Merge, layer int) (bool, error) {
+	if len(r.cd.Added[layer]) > 0 || len(r.cd.Removed[layer]) > 0 {
+		return false, nil
+	}
+	row, err := r.getRow(m, layer)
+	if err != nil {
+		return false, err
+	}
+	baseRow, err := r.getRow(m, -1)
+	if err != nil {
+		return false, err
+	}
+	return strSliceEqual(row, baseRow), nil
+}
+
 func (r *RowResolver) Resolve(m *Merge) (err error) {
 	nonNils := 0
 	unchanges := 0
@@ -163,6 +180,25 @@ func (r *RowResolver) Resolve(m *Merge) (err error) {
 		if sum != nil {
 			nonNils++
 			if bytes.Equal(sum, m.Base) {
+				unchanges++
+			}
+		}
+	}
+	if m.Base != nil && nonNils > 0 && nonNils < len(m.Others) && unchanges < nonNils {
+		// row is removed in some layers: it is only a conflict if another layer
+		// actually modified the row, not if it merely rearranged columns
+		unchanges = 0
+		for i, sum := range m.Others {
+			if sum == nil {
+				continue
+			}
+			same := bytes.Equal(sum, m.Base)
+			if !same {
+				if same, err = r.sameCellsAsBase(m, i); err != nil {
+					return err
+				}
+			}
+			if same {
 				unchanges++
 			}
 		}
